@@ -147,12 +147,20 @@ def gen(rng, knobs):
             good.append(["send", json.dumps(["CLOSE", "g%d" % rng.randrange(ng)]), "good"])
         else:
             good.append(["barrier"])
-    faults = sorted(rng.sample(range(5, 120), rng.choice([0, 0, 0, 1, 2]))) if backend == "sql" else []
+    flood = rng.random() < 0.12
+    if flood:
+        # a consumer that does not read and leaves with a large backlog owed to it: many broad REQs over a
+        # well-filled store, then a disconnect; the well-behaved connection asks afterwards
+        pre = [h.regular(kind=1) for _ in range(rng.randint(10, 20))]
+        hostile = [["send", json.dumps(["REQ", "f%d" % i, {"kinds": [1]}]), "probe"] for i in range(rng.randint(6, 14))]
+        hostile.append(rng.choice([["disconnect"], ["send", "{not json", "garbage"], ["disconnect"]]))
+        good = [["wait", 2.0]] + good
+    faults = sorted(rng.sample(range(5, 120), rng.choice([0, 0, 0, 1, 2]))) if backend == "sql" and not flood else []
     limits = rng.choice([None, None, {"ip": {"EVENT": "3/s", "REQ": "4/s"}}, {"global": {"EVENT": "2/s"}, "ip": {"REQ": "2/s,5/m"}}])
     return {"backend": backend, "preload": pre, "faults": faults, "p_buffered": rng.choice([0.0, 0.3, 0.7, 1.0]),
             "rate_limits": limits, "via_api": rng.random() < 0.5,
             "message_timeout": rng.choice([1800, 1800, 30, 5]),
-            "clients": [{"script": hostile, "slow": rng.random() < 0.2,
+            "clients": [{"script": hostile, "slow": flood or rng.random() < 0.2,
                          "origin": rng.choice(["", "", "https://client.example", "http://bad.actor", "HTTP://BAD.ACTOR"])},
                         {"script": good, "slow": rng.random() < 0.2}],
             "sched": {"client": rng.choice([0.5, 1.0, 3.0]), "sql": rng.choice([0.3, 1.0, 3.0]),
